@@ -15,7 +15,8 @@ CHECKS = {
         "specification's outcomes in priority order with all stacks restored, crash-free (mutual rule induction over the ordered-outcomes semantics Spec/Sem.v: atoms, "
         "in/not in, greedy and fewest loops with zero-width rejection, alternation, captures, back-references, inline subroutines, calls incl. guarded recursion, stored "
         "patterns with predicates); C01_attempt - an attempt of a whole command yields the FIRST outcome or FAILED; C01_find_all - `find all` = leftmost non-overlapping "
-        "non-empty scan of the specification with Value = text[Start:End], bindings and consecutive numbers; C01_oracle_sound. Windows: C04. Tie to /repo: three-layer "
+        "non-empty scan of the specification with Value = text[Start:End], bindings and consecutive numbers; C01_oracle_sound; C01_unrolling_preserves_meaning - the generator's unrolled form (m copies of "
+        "the body, then a loop of 0..n-m iterations, nothing when m = n) means the bounded repetition in the specification, for every body whose outcomes always consume something. Windows: C04. Tie to /repo: three-layer "
         "correspondence (bytecode equal up to loop-id renaming, model VM on the implementation's bytecode, end-to-end) plus implementation vs extracted specification, on "
         "generated programs and exhaustive small programs x texts.",
    note="Theorem scope: unnamed loops, `between m and n` with m<=n as written, ASCII caseless literals, hypotheses loop_ok (well-formed resolved pattern) and existence of a "
@@ -103,8 +104,8 @@ CHECKS = {
    text="Theorems (closed), for ARBITRARY bytecode (not only generated code: named loops, regex literals, replace commands included), every text and window: C03_step_invariant - "
         "every core the VM holds, running or checkpointed, keeps position inside the text, matched = text[start..pos), line/column in step; C03_matches_located - the result list is "
         "a chain: increasing, non-overlapping, each match with Start<End<=|text|, Value=text[Start:End], Line = 1+newlines before the offset, Column = 1-based byte column, at both ends; "
-        "C03_numbers; C03_replace_same_matches. Tie: all fields of every match compared with the model and with closed forms recomputed in Python from the text alone, on multi-line texts.",
-   note="Column claim: ASCII texts (the implementation counts runes per consumed chunk, the model bytes). The clause 'every string variable is a substring of the match value' is checked on the "
+        "C03_numbers; C03_replace_same_matches. Tie: all fields of every match compared with the model and with closed forms recomputed in Python from the text alone, on multi-line texts. C03_variables_are_substrings - in the specification every string variable of every outcome of an attempt started at off is text[a,b) with off <= a <= b <= end: a substring of the match value.",
+   note="Column claim: ASCII texts (the implementation counts runes per consumed chunk, the model bytes). The clause 'every string variable is a substring of the match value' is proved for the specification (string variables; named-loop maps are compared only) and checked on the "
         "implementation (Python oracle) and by correspondence but not yet stated as a theorem (partial).",
    technique="Coq proof (step invariant + induction over the scan, arbitrary programs) + independent closed-form oracle on the implementation",
    ref="DESIGN.md 7 C03"),
